@@ -375,6 +375,17 @@ StuckSend ==
   /\ \E p \in pipes : txHold[p] = NULL /\ ~pclosed[p] /\ (SendKind = "sched" => \E i \in 1..Len(readyQ) : readyQ[i] = p)
 NoStuckSend == ~CanInternal => ~StuckSend
 
+\* Corollary the burst driver relies on: when nothing can move, no call is in progress and no transport send
+\* is outstanding, every accepted message has left the queues of the connected pipes - so what was handed to
+\* the transports is exactly what was accepted: once each (shared / sched / routed), once per pipe (bcast)
+NothingHeld == \A p \in Pipe : txHold[p] = NULL
+AtRest == ~CanInternal /\ NothingHeld /\ \A t \in Thread : call[t] = NULL
+AllHandedAtRest ==
+  (AtRest /\ ~sclosed /\ pipes # {}) =>
+     /\ SendKind = "shared" => sendQ = <<>>
+     /\ (SendKind = "sched" /\ readyQ # <<>>) => sendQ = <<>>      \* (a pipe whose transport send failed is not ready again: it is on its way out)
+     /\ SendKind \in {"bcast", "routed"} => \A p \in pipes : psendQ[p] = <<>>
+
 \* C02 liveness (checked under FairSpec on small constants): a blocked Send completes when a
 \* connected peer is able to take the message
 Fairness ==
